@@ -35,7 +35,7 @@ M64 = (1 << 64) - 1
 
 JK = ["jmp", "jz", "call", "jecxz", "loop"]
 MK = ["lea", "mov", "addi8", "movi32", "cmpi16", "ldeax", "steax", "ldrax", "fsmov", "gsldeax", "fsaddi8"]
-AK = ["b", "bl", "bcond", "cbz", "tbz", "adr", "adrp", "ldr"]
+AK = ["b", "bl", "bcond", "cbz", "tbz", "adr", "adrp", "bc", "ldr"]
 BASES = [0x1000, 0x7FFFF000, 0x80000000, 0xFFFFF000, 1 << 32, (1 << 47) - 4096, 1 << 63, (1 << 64) - 65536]
 
 
